@@ -339,7 +339,25 @@ def check_C15(ctx):
     return "model_checking", fresh, known, mc_cov(ctx), ["memdb backend only"]
 
 
-CHECKS = {"C01": check_C01, "C02": check_C02, "C03": check_C03, "C04": check_C04, "C06": check_C06, "C08": check_C08,
+C07_TAGS = {"LocalSemantics", "ViewConsistent", "FailedKeepsView", "EditNeverFails"}
+
+
+def check_C07(ctx):
+    build_harness(ctx)
+    quick = ctx.tier == "quick"
+    n = 100 if quick else 1500
+    fams = []
+    for nm, alpha, extra, w in [("arr", "OpsArr", ARR, 10), ("txt", "OpsTxt", TXT, 8), ("obj", "OpsObj", OBJ, 6), ("nest", "OpsNest", OBJ, 6),
+                                ("cnt", "OpsCntWrap", dict(kinds=["n"], init=[]), 3), ("treet", "OpsTreeText", TREE, 10), ("treee", "OpsTreeElem", TREE, 6)]:
+        fams.append(dict(name="sem-" + nm, alphabet=alpha, clients="Seq2", editors=E2, feat='{"idle", "fail"}', weight=w, maxedits=8, maxsyncs=8, **extra))
+        fams.append(dict(name="sem-snap-" + nm, alphabet=alpha, clients="Seq3", feat='{"idle", "lateattach", "detach", "reattach"}', late='{"c3"}',
+                         maxsess=2, weight=w, maxedits=5, threshold=2, interval=2, **extra))
+    viols = sim_families(ctx, fams, C07_TAGS, n)
+    fresh, known = split_known(ctx, viols)
+    return "model_checking", fresh, known, mc_cov(ctx), ["memdb backend only", "text/tree styles: only that they do not change the content view"]
+
+
+CHECKS = {"C07": check_C07, "C01": check_C01, "C02": check_C02, "C03": check_C03, "C04": check_C04, "C06": check_C06, "C08": check_C08,
           "C10": check_C10, "C11": check_C11, "C12": check_C12, "C15": check_C15}
 
 
